@@ -335,6 +335,7 @@ type vwInst struct {
 	wit  *Witness
 	db   *sql.DB
 	held map[string]*vwCand // harness' own record of what each log's row must hold
+	byRaw map[string]*vwCand // every candidate submitted so far, by raw bytes (to resynchronise after a failure)
 	out  *verifkit.Out
 	name string
 	nOps int
@@ -368,7 +369,17 @@ func (w *vwWorld) newInst(t *testing.T, out *verifkit.Out, dsn, name string) *vw
 		fmt.Fprintf(&b, " %s %s", vwID(l.id), h)
 	}
 	out.T(b.String(), "ok")
-	return &vwInst{w: w, wit: wit, db: db, held: map[string]*vwCand{}, out: out, name: name}
+	return &vwInst{w: w, wit: wit, db: db, held: map[string]*vwCand{}, byRaw: map[string]*vwCand{}, out: out, name: name}
+}
+
+// resync makes the bookkeeping follow the stored row (only after a failure has been reported).
+func (in *vwInst) resync(id string) {
+	raw := in.stored(id)
+	if raw == nil {
+		delete(in.held, id)
+	} else if c := in.byRaw[string(raw)]; c != nil {
+		in.held[id] = c
+	}
 }
 
 func (in *vwInst) stored(id string) []byte {
@@ -497,8 +508,14 @@ func (in *vwInst) checkUpdate(key string, id string, target *vwLog, known bool, 
 func (in *vwInst) update(id string, target *vwLog, known bool, c *vwCand, pf [][]byte, class string) {
 	in.nOps++
 	key := fmt.Sprintf("%s op%d upd %s [%s]", in.name, in.nOps, class, c.desc)
+	in.byRaw[string(c.raw)] = c
 	before := in.stored(id)
 	prev := in.held[id]
+	if (prev == nil) != (before == nil) || (prev != nil && !bytes.Equal(prev.raw, before)) {
+		in.out.Fail(key, "harness bookkeeping and stored row disagree before the call")
+		in.resync(id)
+		prev = in.held[id]
+	}
 	var reply []byte
 	var err error
 	if p := verifkit.Guard(func() { reply, err = in.wit.Update(context.Background(), id, c.raw, pf) }); p != "" {
@@ -513,8 +530,8 @@ func (in *vwInst) update(id string, target *vwLog, known bool, c *vwCand, pf [][
 	if in.checkUpdate(key, id, target, known, c, before, prev, reply, err, after, ans) {
 		in.held[id] = c
 	}
-	if (prev == nil) != (before == nil) || (prev != nil && !bytes.Equal(prev.raw, before)) {
-		in.out.Fail(key, "harness bookkeeping and stored row disagree before the call")
+	if h := in.held[id]; (h == nil) != (after == nil) || (h != nil && !bytes.Equal(h.raw, after)) {
+		in.resync(id) // a failure has been reported above
 	}
 }
 
@@ -736,7 +753,7 @@ func (in *vwInst) step(r *verifkit.Rand) {
 		pfork = 0
 	}
 	switch {
-	case y < 45: // forward along a compatible fork, honest proof
+	case y < 55: // forward along a compatible fork, honest proof
 		if int(prev.size) >= w.maxN {
 			in.get(l.id)
 			return
@@ -744,7 +761,7 @@ func (in *vwInst) step(r *verifkit.Rand) {
 		fs := vwCompatible(l, pfork, prev.size)
 		f := fs[r.Intn(len(fs))]
 		step := 1 + r.Intn(w.maxN-int(prev.size))
-		if r.Intn(3) == 0 {
+		if r.Intn(3) > 0 {
 			step = 1 + r.Intn(3)
 			if int(prev.size)+step > w.maxN {
 				step = 1
@@ -753,7 +770,7 @@ func (in *vwInst) step(r *verifkit.Rand) {
 		c := w.mkCand(r, l, l, f, prev.size+uint64(step), 0, "good", idMode, jsonMode)
 		cl, pf := in.genProof(r, l, prev, c, "honest")
 		in.update(l.id, l, true, c, pf, "forward/"+cl)
-	case y < 60: // forward, defective proof
+	case y < 68: // forward, defective proof
 		if int(prev.size) >= w.maxN {
 			in.get(l.id)
 			return
@@ -764,7 +781,7 @@ func (in *vwInst) step(r *verifkit.Rand) {
 		mode := []string{"other-sizes", "other-fork", "wronglen", "empty", "mut", "mut", "mut"}[r.Intn(7)]
 		cl, pf := in.genProof(r, l, prev, c, mode)
 		in.update(l.id, l, true, c, pf, "forward/"+cl)
-	case y < 72: // forward to an arbitrary (often incompatible) fork with that fork's own proof
+	case y < 76: // forward to an arbitrary (often incompatible) fork with that fork's own proof
 		if int(prev.size) >= w.maxN {
 			in.get(l.id)
 			return
@@ -773,7 +790,7 @@ func (in *vwInst) step(r *verifkit.Rand) {
 		c := w.mkCand(r, l, l, f, prev.size+1+uint64(r.Intn(w.maxN-int(prev.size))), 0, "good", idMode, jsonMode)
 		cl, pf := in.genProof(r, l, prev, c, "honest")
 		in.update(l.id, l, true, c, pf, "forward-anyfork/"+cl)
-	case y < 86: // equal size: identical bytes / re-signed with another timestamp / another fork's root
+	case y < 88: // equal size: identical bytes / re-signed with another timestamp / another fork's root
 		f := pfork
 		tsv := 0
 		class := "equal-identical"
@@ -861,6 +878,7 @@ func (in *vwInst) concurrent(r *verifkit.Rand, k int) {
 			}
 			_, pf = in.genProof(r, l, base, c, "honest")
 		}
+		in.byRaw[string(c.raw)] = c
 		items[i] = &vwConcItem{id: l.id, target: l, c: c, pf: pf}
 	}
 	before := map[string][]byte{}
@@ -930,6 +948,9 @@ func (in *vwInst) concurrent(r *verifkit.Rand, k int) {
 		}
 		if cur != nil {
 			in.held[l.id] = cur
+		}
+		if !bytes.Equal(after, want) {
+			in.resync(l.id)
 		}
 	}
 }
